@@ -200,6 +200,8 @@ structure OSt where
   hs : Hid → Handle := fun _ => {}
   /-- every directory removal performed by a Destroy: (handle, directory, who had made it) -/
   removed : List (Hid × Dir × Option Hid) := []
+  /-- the hierarchy: the directory a directory lies in (fixed); rmdir fails on a directory with sub-directories -/
+  par : Dir → Option Dir := fun _ => none
 
 inductive OOp
   | mk (h : Hid) (d : Dir)       -- the handle's creating call reaches directory d: one atomic mkdir
@@ -216,13 +218,18 @@ def owner (fs : List (Dir × Option Hid)) (d : Dir) : Option (Option Hid) :=
 def setH (hs : Hid → Handle) (h : Hid) (v : Handle) : Hid → Handle := fun k => if k = h then v else hs k
 
 /-- Destroy's loop (Go: `for _, s := range c.created { if c.existing {continue}; remove(s.path) }`) -/
-def destroyLoop (h : Hid) : List Dir → List (Dir × Option Hid) → List (Hid × Dir × Option Hid) →
+def hasChild (par : Dir → Option Dir) (fs : List (Dir × Option Hid)) (d : Dir) : Bool :=
+  fs.any (fun e => par e.1 == some d)
+
+def destroyLoop (par : Dir → Option Dir) (h : Hid) : List Dir → List (Dir × Option Hid) → List (Hid × Dir × Option Hid) →
     List (Dir × Option Hid) × List (Hid × Dir × Option Hid)
   | [], fs, log => (fs, log)
   | d :: rest, fs, log =>
     match owner fs d with
-    | some o => destroyLoop h rest (fs.filter (fun e => e.1 ≠ d)) ((h, d, o) :: log)
-    | none => destroyLoop h rest fs log
+    | some o =>
+      if hasChild par fs d then destroyLoop par h rest fs log        -- rmdir: the group still has sub-groups (EBUSY)
+      else destroyLoop par h rest (fs.filter (fun e => e.1 ≠ d)) ((h, d, o) :: log)
+    | none => destroyLoop par h rest fs log
 
 def ostep (s : OSt) : OOp → OSt
   | .mk h d =>
@@ -236,8 +243,8 @@ def ostep (s : OSt) : OOp → OSt
     if hd.dead then s else
     if hd.existing then { s with hs := setH s.hs h { hd with dead := true } }
     else
-      let (fs, log) := destroyLoop h hd.created s.fs s.removed
-      { fs := fs, hs := setH s.hs h { hd with dead := true }, removed := log }
+      let (fs, log) := destroyLoop s.par h hd.created s.fs s.removed
+      { s with fs := fs, hs := setH s.hs h { hd with dead := true }, removed := log }
   | .extMk d => if (owner s.fs d).isSome then s else { s with fs := (d, none) :: s.fs }
   | .extRm d => if owner s.fs d = some none then { s with fs := s.fs.filter (fun e => e.1 ≠ d) } else s
 
